@@ -7,7 +7,7 @@ import random as _pyrandom
 from pvc.contract import Contract
 from pvc.sym import And, Or, Not, Implies, eq, lt, le, is_sym, smin, smax
 from . import fx
-from .net import Net, build_dcop, global_cost, local_cost, HandlerRaised, get_spec, make_net
+from .net import Net, build_dcop, global_cost, local_cost, HandlerRaised, get_spec, make_net, warm_up
 from .c_mgm import SPECS
 
 
@@ -67,6 +67,8 @@ def h_dsa(env):
     variables, cons, tabs, varcost = build_dcop(env, spec)
     ap = dict(p.get("algo_params", {}))
     ap["stop_cycle"] = k
+    if p.get("warm_up"):
+        warm_up(env, "dsa", mode, spec, ap)
     net = make_net(env, "dsa.computations-can-be-built", "dsa", mode, variables, cons, ap)
     if net is None:
         return
@@ -155,6 +157,7 @@ def _shapes_dsa(tier, prop=None):
         dict(spec="chain3", stop_cycle=3, modes=["min"], algo_params=dict(variant="A", **P1), policy="favor:x1", fixed_initial=True),
         dict(spec="chain3", stop_cycle=3, modes=["min"], algo_params=dict(variant="C", **P1), policy="starve:x3", fixed_initial=True),
     ]
+    q += [dict(spec="pair2", stop_cycle=2, algo_params=dict(variant="B", **P1), warm_up=True)]
     # 4-6 variables, several cycles, real probabilities: decided by the sampled native pass only
     big = [dict(spec="rand4", stop_cycle=4, algo_params=dict(variant="A"), sample_only=True, sample_factor=4, sample_part=0, policy="random", sched_seed=1),
            dict(spec="rand5", stop_cycle=3, algo_params=dict(variant="B"), sample_only=True, sample_factor=4, sample_part=1, nary=True),
